@@ -99,7 +99,10 @@ check('C12',
       'mode x import ok/failing. Every terminal state is run by the real DocTest.run and sys.stdout, sys.stderr, sys.path, warnings.filters, '
       'warnings.showwarning are compared with their values at entry and no event loop may be left running, at normal and exceptional exits '
       '(verbosity 0..3 rotating; a body kind that closes the capture stream). PathCtx.tla models PythonPathContext around an import whose module '
-      'changes sys.path itself (every behaviour replayed); imports by path from zip archives (succeeding, failing, missing) are compared for '
+      'changes sys.path itself, also by binding it to a new list object (every behaviour replayed); Capture.tla models CaptureStdout/TeeStringIO '
+      'as a state machine (construct, enter, print, leave; two objects, suppressing or teeing, enabled or not; invariants PartsExact, '
+      'NothingLostOrTwice, SuppressHides, TeeShows, RestoredLIFO, DisabledInert) and every behaviour of <=6 (quick) / <=8 steps is stepped through '
+      'the real objects with the projected state compared after each step; imports by path from zip archives (succeeding, failing, missing) are compared for '
       'sys.path, warning filters and streams; recorded run-loop traces are validated against DocRunTrace.tla (CapEnter/CapExit restore stdout).',
       DOCRUN_NOTE + ' Import by path outside a run (import_module_from_path) is covered by the C17 check.',
       'TLA+ run-loop spec (TLC exhaustive), exhaustive replay of TLC terminal states into DocTest.run with before/after snapshots of process globals',
@@ -209,7 +212,10 @@ check('C17',
       'checks ResolveIsImport, RoundTrip, SplitIsDecl, WalkIsDecl on all 149k depth-2 trees over two names per level and a depth-3 family. Sampled '
       'trees are materialised: for every dotted name (present, absent, __main__) modname_to_modpath must equal the specification and what '
       'importlib\'s FileFinder finds part by part; every module path is converted back (modpath_to_modname, split_modpath); modules are imported by '
-      'path (name, sys.path restored, also when the module raises); package_modpaths must list exactly the package tree.',
+      'path (name, sys.path restored, also when the module raises); package_modpaths must list exactly the package tree. SearchPath.tla puts two '
+      'or three such trees on one search path: the candidate loop (first entry in which the whole name resolves) against the interpreter (the '
+      'first entry that provides the top-level name decides), MultiResolveIsImport with the named known deviation Shadowed (finding F24); every '
+      'pair of trees (a sample of the triples) is materialised and modname_to_modpath(sys_path=[...]) compared with the specification and FileFinder.',
       'Trusted: TLC, importlib.machinery.FileFinder as oracle for the declarative rule (a disagreement between the two is a machinery error). '
       'Regular-package semantics: PEP 420 namespace portions count as nothing. Names never contain __init__.',
       'TLA+ resolution spec vs import-rule definition (TLC exhaustive), replay of TLC-generated trees on the file system with a FileFinder oracle',
@@ -261,7 +267,9 @@ check('C20',
       'expression examples, and the only configuration that cannot match "stdout + repr" is eval mode on a print-and-value example (known finding '
       'F6, named in the spec). Wants are produced by the standard module\'s own runner (REPL semantics); the text is run by '
       'doctest.DocTestRunner(optionflags=0) - rejected texts are discarded and counted - and by xdoctest, which must collect it, pass, and '
-      'execute the same examples (trace equal to the standard module\'s).',
+      'execute the same examples (trace equal to the standard module\'s). Directive.tla over the standard prefix enumerates option comments by '
+      'placement (behind the statement, on a continuation line, behind an empty source line of the statement) x separators x statement forms; '
+      'the standard module judges each text and xdoctest must execute the same statements (known finding F25).',
       DOCPARSE_NOTE + ' The standard doctest module itself decides which texts count. F6 is reported as KNOWN-FINDING (signature: print-and-value '
       'example on a part in eval mode).',
       'TLA+ parser spec over standard-syntax examples (TLC exhaustive), differential replay against the standard doctest module',
@@ -291,10 +299,12 @@ def main():
             {'name': 'docparse', 'path': 'specs/DocParse.tla', 'serves_properties': ['C01', 'C13', 'C14', 'C18', 'C19', 'C20'], 'kind_free_text': 'TLA+ spec of the docstring parser (labeller, grouping, packaging, re-parse round, run set) with declarative labelling; MC_DocParse.tla alphabets; TLC prints finished docstrings, harness/parselib.py replays them'},
             {'name': 'collect', 'path': 'specs/Collect.tla', 'serves_properties': ['C07', 'C08', 'C16'], 'kind_free_text': 'TLA+ spec of module collection (visitor stack machine, declarative inventory, file line list, docstring/doctest line arithmetic); MC_Collect.tla alphabets; harness/collectlib.py renders and compares'},
             {'name': 'modpath', 'path': 'specs/ModPath.tla', 'serves_properties': ['C17', 'C07', 'C12'], 'kind_free_text': 'TLA+ spec of module name/path resolution, split and package walk over directory trees; MC_ModPath.tla; harness/c17.py materialises trees'},
+            {'name': 'searchpath', 'path': 'specs/SearchPath.tla', 'serves_properties': ['C17'], 'kind_free_text': 'TLA+ spec of name resolution over a search path of several entries (trees of ModPath.tla built one after the other); MC_SearchPath.tla; harness/c17.py materialises the entries'},
+            {'name': 'capture', 'path': 'specs/Capture.tla', 'serves_properties': ['C12', 'C01'], 'kind_free_text': 'TLA+ spec of CaptureStdout/TeeStringIO as a state machine; every behaviour stepped through the real objects (harness/c12.py capture_phase)'},
             {'name': 'pathctx', 'path': 'specs/PathCtx.tla', 'serves_properties': ['C12', 'C17'], 'kind_free_text': 'TLA+ spec of PythonPathContext around an import whose module changes sys.path; every behaviour replayed into the real context manager (harness/c12.py)'},
             {'name': 'session', 'path': 'specs/Session.tla', 'serves_properties': ['C10', 'C11', 'C15'], 'kind_free_text': 'TLA+ spec of a process running collected doctests through the native and pytest front ends or in arbitrary histories; harness/sessionlib.py renders by-construction doctests'},
             {'name': 'googleblocks', 'path': 'specs/GoogleBlocks.tla', 'serves_properties': ['C07'], 'kind_free_text': 'TLA+ spec of the line-by-line grouping of google-style docstrings into blocks and of the one-doctest-per-example-block rule; harness/googlelib.py replays into docscrape_google / core'},
-            {'name': 'directive', 'path': 'specs/Directive.tla', 'serves_properties': ['C04'], 'kind_free_text': 'TLA+ spec of directive comments (option syntax, recognition, REQUIRES conditions, effects); MC_Directive.tla alphabets; harness/dirlib.py replays'},
+            {'name': 'directive', 'path': 'specs/Directive.tla', 'serves_properties': ['C04', 'C20'], 'kind_free_text': 'TLA+ spec of directive comments (option syntax, recognition, REQUIRES conditions, effects); MC_Directive.tla alphabets; harness/dirlib.py replays'},
             {'name': 'sessiontrace', 'path': 'specs/SessionTrace.tla', 'serves_properties': ['C10'], 'kind_free_text': 'TLA+ trace specification of the native runner session; validates session events recorded by harness/probe.py from the real runner (harness/tracelib.py)'},
             {'name': 'docruntrace', 'path': 'specs/DocRunTrace.tla', 'serves_properties': ['C02', 'C03', 'C04', 'C09', 'C12'], 'kind_free_text': 'TLA+ trace specification of DocTest.run; validates run-loop events recorded by harness/probe.py (replayed cases, library doctests, repository tests)'},
             {'name': 'match', 'path': 'specs/Match.tla', 'serves_properties': ['C05', 'C06'], 'kind_free_text': 'TLA+ spec of output matching (normalisation pipeline, ellipsis) + MatchTrace.tla trace spec; TLC'},
